@@ -270,11 +270,30 @@ def rule_formula(ctx):
   ctx.record(R, f.where, "(x, y, 1)", not probs, "; ".join(sorted(set(probs))) or "finite -> (x, y, 1); infinity -> (1, 1, 0)")
   # ---- batched variants
   pl, ql, pts = P("param", "p_list"), P("param", "q_list"), P("param", "points")
+  def result_vars(w):
+    """names of the list variables whose final value is returned (a single list, or the items of a returned tuple), in return order"""
+    names = []
+    for kind_, val_, st_ in w.terminals:
+      if kind_ != "return":
+        continue
+      items = list(val_.items) if isinstance(val_, Seq) else [val_]
+      for it_ in items:
+        if not isinstance(it_, Poly):
+          continue
+        for nm_, x_ in st_.env.items():
+          if isinstance(x_, Poly) and x_ == it_ and nm_ not in names and any(e.kind == "store" and isinstance(e.data["target"].value, ast.Name) and e.data["target"].value.id == nm_ for e in w.events):
+            names.append(nm_)
+    return names
+
   def stores(w, var=None):
     out = []
     for e in w.events:
       if e.kind == "store" and isinstance(e.data["target"].value, ast.Name) and (var is None or e.data["target"].value.id == var):
         out.append(e)
+    if var is not None and not out:
+      # the result list under another name: whatever list is filled element-wise and returned
+      rv = result_vars(w)
+      out = [e for e in w.events if e.kind == "store" and isinstance(e.data["target"].value, ast.Name) and e.data["target"].value.id in rv]
     return out
   # BatchJacobianToX / Affine
   for name, twod in (("BatchJacobianToX", False), ("BatchJacobianToAffine", True)):
@@ -346,6 +365,10 @@ def rule_formula(ctx):
   for name, targets in (("BatchAdd", {"res": "sum2"}), ("BatchAddX", {"tmp": "sumx"}), ("BatchAddSubtractX", {"sums": "sumx", "diffs": "diffx"})):
     f, w = walk(repo, name)
     seen = {}
+    rv_ = result_vars(w)
+    if len(rv_) == len(targets):
+      # roles by position: the returned lists, in return order (whatever they are called)
+      targets = dict(zip(rv_, targets.values()))
     for e in stores(w):
       var = e.data["target"].value.id
       if var not in targets:
